@@ -565,12 +565,16 @@ def run(ctx):
     reqs = [{'op': 'run', 'prog': e[0], 'fuel': FUEL} for e in encs]
     ctx.bind_items = bind_items(ctx)
     reqs += [A.bind_encode(it['sig'], c) for it in ctx.bind_items for c in it['calls']]
+    nbind = len(reqs) - len(progs)
+    lookup_items = c02_flow.lookup_items(ctx)
+    reqs += [{'op': 'lookup', 'hier': it['hier'], 'names': c02_flow.LOOKUP_NAMES} for it in lookup_items]
     # the Lean driver (one call) runs while the real code is exercised in worker processes
     with ThreadPoolExecutor(1) as pool:
         fut = pool.submit(common.run_driver_parallel, 'C02', reqs) if ctx.model_ok else None
         outs = common.parallel_map('props.c02', 'analyse', progs)
         ctx.bind_outs = common.parallel_map('props.c02', 'analyse_bind', ctx.bind_items)
-        answers = fut.result() if fut is not None else [None] * len(progs)
+        lookup_outs = common.parallel_map('props.c02_flow', 'analyse_lookup', lookup_items)
+        answers = fut.result() if fut is not None else [None] * len(reqs)
     how = 'jedi.Script(source).infer(line, 0) vs executing the program (harness/gen/pycore.py:run)'
     for out, ans, (enc, nm), prog in zip(outs, answers, encs, progs):
         src = out['src']
@@ -622,7 +626,8 @@ def run(ctx):
             elif m['exec'] is not None and out['err'] is None:
                 ctx.tie_broken('correspondence:exec', short({'source': src, 'line': rec['line'],
                                                              'cpython': 'probe not reached', 'model': m['exec']}, 1500))
-    run_bind(ctx, answers[len(progs):] if ctx.model_ok else None, how)
+    run_bind(ctx, answers[len(progs):len(progs) + nbind] if ctx.model_ok else None, how)
+    c02_flow.judge_lookup(ctx, lookup_items, lookup_outs, answers[len(progs) + nbind:])
     # ---- beyond the fragment: argument binding of methods / lambdas, judged by the direct oracle only
     seeds = ['%s-argbind-%d' % (ctx.seed, i) for i in range(ctx.size(40, 800))]
     for recs in common.parallel_map('props.c02', 'analyse_argbind', seeds):
